@@ -172,4 +172,94 @@ mutual
       simp [allPreList, Tree.size.sizeList, length_allPre k, length_allPreList ks (i + 1)]
 end
 
+/-! ## Structural validity the category-aware entry points rely on -/
+
+/-- No normal child before a non-normal one (namespace and attribute nodes lead). -/
+def kidsOrdered (ks : List Tree) : Bool :=
+  (ks.dropWhile (fun k => !k.value.isNormal)).all (fun k => k.value.isNormal)
+
+mutual
+  /-- Every child list is ordered and non-normal nodes are leaves. (Part of `StructValid`,
+      DESIGN.md 4.4; every tree xot's API can build satisfies it, C04.) -/
+  def wf : Tree → Bool
+    | .node v ks => (v.isNormal || ks.isEmpty) && kidsOrdered ks && wfList ks
+  def wfList : List Tree → Bool
+    | [] => true
+    | k :: ks => wf k && wfList ks
+end
+
+theorem wfList_getElem? : ∀ (ks : List Tree) (i : Nat) (k : Tree), wfList ks = true →
+    ks[i]? = some k → wf k = true
+  | [], _, _, _, h => by simp at h
+  | k' :: ks, 0, k, hw, h => by
+    simp only [wfList, Bool.and_eq_true] at hw
+    simp at h; subst h; exact hw.1
+  | k' :: ks, i + 1, k, hw, h => by
+    simp only [wfList, Bool.and_eq_true] at hw
+    exact wfList_getElem? ks i k hw.2 (by simpa using h)
+
+theorem wf_at? : ∀ (t : Tree) (p : Path) (s : Tree), wf t = true → t.at? p = some s → wf s = true
+  | t, [], s, hw, h => by simp [Tree.at?] at h; subst h; exact hw
+  | .node v ks, i :: p, s, hw, h => by
+    simp only [Tree.at?] at h
+    cases hk : ks[i]? with
+    | none => rw [hk] at h; cases h
+    | some k =>
+      rw [hk] at h
+      simp only [wf, Bool.and_eq_true] at hw
+      exact wf_at? k p s (wfList_getElem? ks i k hw.2 hk) h
+
+/-- In an ordered child list everything after a normal child is normal. -/
+theorem kidsOrdered_mono : ∀ (ks : List Tree), kidsOrdered ks = true → ∀ (j j' : Nat) (a b : Tree),
+    j ≤ j' → ks[j]? = some a → ks[j']? = some b → a.value.isNormal = true → b.value.isNormal = true
+  | [], _, _, _, _, _, _, h, _, _ => by simp at h
+  | k :: ks, ho, j, j', a, b, hle, ha, hb, hn => by
+    unfold kidsOrdered at ho
+    by_cases hk : k.value.isNormal = true
+    · simp only [List.dropWhile_cons, hk, Bool.not_true, Bool.false_eq_true, if_false,
+        List.all_eq_true] at ho
+      exact ho b (List.mem_of_getElem? hb)
+    · simp only [List.dropWhile_cons, hk, Bool.not_false, if_true] at ho
+      cases j with
+      | zero => simp at ha; subst ha; exact absurd hn hk
+      | succ j =>
+        cases j' with
+        | zero => omega
+        | succ j' =>
+          have : kidsOrdered ks = true := by
+            unfold kidsOrdered
+            simpa using ho
+          exact kidsOrdered_mono ks this j j' a b (by omega) (by simpa using ha) (by simpa using hb) hn
+
+theorem size_getElem?_le : ∀ (ks : List Tree) (i : Nat) (k : Tree), ks[i]? = some k →
+    k.size ≤ Tree.size.sizeList ks
+  | [], _, _, h => by simp at h
+  | k' :: ks, 0, k, h => by simp at h; subst h; simp [Tree.size.sizeList]
+  | k' :: ks, i + 1, k, h => by
+    have := size_getElem?_le ks i k (by simpa using h)
+    simp [Tree.size.sizeList]; omega
+
+theorem size_at?_le : ∀ (t : Tree) (p : Path) (s : Tree), t.at? p = some s → s.size ≤ t.size
+  | t, [], s, h => by simp [Tree.at?] at h; subst h; exact Nat.le_refl _
+  | .node v ks, i :: p, s, h => by
+    simp only [Tree.at?] at h
+    cases hk : ks[i]? with
+    | none => rw [hk] at h; cases h
+    | some k =>
+      rw [hk] at h
+      have h1 := size_at?_le k p s h
+      have h2 := size_getElem?_le ks i k hk
+      simp [Tree.size]; omega
+
+theorem length_le_sizeList : ∀ ks : List Tree, ks.length ≤ Tree.size.sizeList ks
+  | [] => by simp [Tree.size.sizeList]
+  | k :: ks => by
+    have := length_le_sizeList ks
+    have : 1 ≤ k.size := by cases k; simp [Tree.size]
+    simp [Tree.size.sizeList]; omega
+
+theorem kids_length_lt_size (s : Tree) : s.kids.length < s.size := by
+  cases s with
+  | node v ks => have := length_le_sizeList ks; simp [Tree.size, Tree.kids]; omega
+
 end XotModel.Axes
